@@ -93,7 +93,8 @@ impl Blob {
 
         // Update blob section header with actual lenght
         let end_offset = writer.physical_position()?;
-        section_header.section_length = length;
+        // The section length covers the header, the data and the padding
+        section_header.section_length = (BlobSectionHeader::SIZE + length).div_ceil(4) * 4;
         writer.physical_seek(start_offset)?;
         section_header.to_writer(writer)?;
         writer.physical_seek(end_offset)?;
@@ -114,6 +115,8 @@ struct BlobSectionHeader {
 }
 
 impl BlobSectionHeader {
+    const SIZE: u64 = 16;
+
     fn from_array(buffer: &[u8; 16]) -> Result<Self> {
         let section_id = buffer[0];
         if section_id != 0 {
